@@ -139,6 +139,9 @@ def run_compregion(ctx, nsteps, nstreams):
         orc_lines = orc.read_text().splitlines()
         wild = {int(ol.split()[1]) for ol in orc_lines if ol.startswith("RANGE ")}
         probes["probed"] += len(wild)
+        # a consulted clip that is not a region (not canonical): outside `Canon clip` of RangeOK, so no oracle
+        # line; nothing in C is undefined there, so a model/implementation difference stays a finding
+        probes["non-canonical clip consulted (model comparison binding)"] += sum(1 for ol in orc_lines if ol.startswith("NONCANON "))
         for (ln, op, a, m) in dis:
             if ln in wild:
                 # outside the no-overflow range (signed overflow in C): informational only
@@ -157,9 +160,12 @@ def run_compregion(ctx, nsteps, nstreams):
     ctx.cov["traces_validated_against_impl"] += total
     ctx.cov["samples"] += samples
     ctx.extra["compregion_histogram"] = dict(hist)
-    ctx.extra["excluded_points_probed"] = dict(probes, note="cr32 requests outside the theorem's no-overflow range (int overflow in "
+    ctx.extra["excluded_points_probed"] = dict(probes, note="'probed': cr32 requests outside the theorem's no-overflow range (int overflow in "
                                                "dest+width, dest-src or clip box + translation): real code run and compared with the "
-                                               "model's explicit wrap-around; not part of the verdict")
+                                               "model's explicit wrap-around; not part of the verdict.  'non-canonical clip': requests whose "
+                                               "consulted clip is not a region (e.g. data == NULL with x1 == x2, written field by field): "
+                                               "outside `Canon clip` of RangeOK, no oracle line; the comparison with the model is part of "
+                                               "the verdict")
     ctx.extra["compregion_flag_combinations_sampled"] = dict(flags)
     groups = collections.OrderedDict()
     for kind, line, a, m, text in findings:
@@ -282,14 +288,16 @@ def run(ctx):
     run_frame(ctx, 20000 if quick else 600000, 8 if quick else 16)
     ctx.cov["rule"] = (
         "compregion: generated scenarios (destination, source, optional mask, each with optional alpha map; clips built "
-        "through the region API — single, multi-rectangle, covers with holes, empty, malformed-empty — drawn in destination "
+        "through the region API — single, multi-rectangle, covers with holes, empty; plus a malformed 'one rectangle without area' "
+        "written field by field, which is outside the theorem (Canon clip) and compared with the model only — drawn in destination "
         "space and moved into the image's space; every clip_sources x client_clip x have_clip combination; request "
         "rectangles inside / partly / wholly outside, zero sizes; a 'big' class with dimensions and coordinates at 2^15, "
         "2^16, 2^30, INT32 limits kept inside the no-overflow range of the theorem) run through "
         "_pixman_compute_composite_region32, the public 16-bit entry and the box loop of pixman_image_composite32 "
         "(observed with a recording composite function); each request replayed through the Lean model (return value, "
-        "region kind, extents and every rectangle compared, also on FALSE) and through a first-principles point oracle on "
-        "the grid of all edge coordinates +-1; non-trivial = distinct request that returns TRUE and has a "
+        "region kind, extents and every rectangle compared, also on FALSE) and — when it satisfies the hypotheses RangeOK of "
+        "the theorems: no int overflow, consulted clips canonical — through a first-principles point oracle on "
+        "the grid of all edge coordinates +-1 (membership, return value, canonical form incl. merged bands); non-trivial = distinct request that returns TRUE and has a "
         "multi-rectangle clip.  frame: generated drawing requests (composite32 with 13 operators incl. float-pipeline ones, "
         "solid / bits sources with and without transform, repeat, bilinear, optional mask incl. component alpha, source and "
         "mask clips with all flag combinations, destination clip, destination alpha map; fill_boxes / fill_rectangles; "
@@ -303,6 +311,10 @@ def run(ctx):
         "no allocation failure (C15)",
         "int arithmetic of the C code exact: dest_x+width, dest_y+height, dest-src, dest-mask, clip box + translation inside "
         "int32 (generator stays inside; the model writes the conversions explicitly)",
+        "every clip region the code consults is a region (canonical: RangeOK.dest_clip, DestAlphaOK, ClipOK, AlphaOK). A "
+        "pixman_region32_t with data == NULL and x1 >= x2 ('one rectangle' without a point) cannot be built with the region "
+        "API; as a clip it can make _pixman_compute_composite_region32 return TRUE with that empty rectangle (see "
+        "corpus/compregion/2.txt and the examples at the end of Props/C03.lean)",
         "alpha-map clips: exactness of the reported region is claimed for alpha maps without a clip region; with one the "
         "oracle checks the intersection as coded and 'reported subset of the exact intersection'",
     ]
@@ -342,6 +354,10 @@ def replay(ctx, path):
         print("request       :", req)
         print("implementation:", (ctx.scratch / "impl.txt").read_text().strip())
         print("model         :", (ctx.scratch / "model.txt").read_text().strip())
-        print("oracle        :", (ctx.scratch / "orc.txt").read_text().strip() or "(passes)")
-        if (ctx.scratch / "orc.txt").read_text().strip() or (ctx.scratch / "impl.txt").read_text() != (ctx.scratch / "model.txt").read_text():
+        orc_text = (ctx.scratch / "orc.txt").read_text().strip()
+        marker = orc_text.split(" ", 1)[0] if orc_text else ""
+        print("oracle        :", {"RANGE": "(not evaluated: int overflow, outside RangeOK)",
+                                  "NONCANON": "(not evaluated: a consulted clip is not canonical, outside RangeOK; model comparison binding)"}
+              .get(marker, orc_text or "(passes)"))
+        if "ORACLE " in orc_text or (ctx.scratch / "impl.txt").read_text() != (ctx.scratch / "model.txt").read_text():
             ctx.violation(obj, signature=obj.get("signature"), what=obj.get("what", ""), tag="replay")
